@@ -22,11 +22,13 @@ def list_harnesses(scratch):
     """All `fn <name>` preceded by a kani::proof attribute in the expanded harness modules."""
     res = {}
     vk = os.path.join(scratch, 'verif_k')
+    import json
+    modmap = json.load(open(os.path.join(vk, 'modules.json')))
     for f in sorted(os.listdir(vk)):
         if not f.startswith('k_'):
             continue
         text = open(os.path.join(vk, f), encoding='utf-8').read()
-        mod = MODULE_OF[f]
+        mod = modmap[f]
         for m in re.finditer(r'#\[kani::proof(?:_for_contract\([^)]*\))?\]\s*(?:#\[[^\]]*\]\s*)*fn\s+(\w+)\s*\(', text):
             res[m.group(1)] = '%s::verif_k::%s' % (mod, m.group(1))
     return res
